@@ -122,6 +122,12 @@ pub fn run(run: &mut Run) {
             moved.push(Script { ops: vec![(node, c.to_string())] });
         }
     }
+    // diagnostic: NUNMC_C14_ONLY=failover runs the fail-over family alone (never set by MANIFEST commands)
+    let only_failover = std::env::var("NUNMC_C14_ONLY").map(|v| v == "failover").unwrap_or(false);
+    if only_failover {
+        plan.clear();
+        moved.clear();
+    }
     let mut total = NetStats::default();
     let mut capped = 0;
     let mut skipped = 0;
@@ -151,6 +157,49 @@ pub fn run(run: &mut Run) {
         }
     }
     run.cov("scripts_on_a_cluster_whose_primary_moved", json!(moved.len()));
+    // a cluster that has been through a fail-over (n1 died, n2 won the election and announced itself over the
+    // links it had opened as a secondary): one operation must still cause one bounded burst
+    let mut failover: Vec<(&'static str, Script)> = vec![];
+    for (strategy, node, c) in [("arbiter", 1usize, "resolve 5 t k 1 r1"), ("arbiter", 2, "resolve 5 t k 1 r1"), ("none", 2, "set k v1"), ("none", 1, "create-db d2 tok2")] {
+        if quick && c.starts_with("create-db") {
+            continue;
+        }
+        failover.push((strategy, Script { ops: vec![(node, c.to_string())] }));
+    }
+    for (strategy, sc) in failover.iter() {
+        let setup = ClusterSetup { nodes: 3, strategy, init: vec!["set k v0".into(), "set k v0b".into(), "set c 5".into()] };
+        let cfg = NetCfg { max_states: if quick { 60 } else { 30000 }, max_path: 120, budget: Duration::from_secs(if quick { 5 } else { 40 }), workers: if quick { 1 } else { crate::util::workers() }, by_deviations: quick };
+        let mk = || super::cluster::build_after_failover(&setup, sc);
+        let judge_alive = |w: &NetWorld, at_q: bool| -> Vec<(String, String)> {
+            let alive: Vec<usize> = (0..w.nodes.len()).filter(|i| w.nodes[*i].alive).collect();
+            match alive.iter().cloned().find(|i| w.role(*i) == nundb::bo::ClusterRole::Primary) {
+                Some(p) => judge_lines(&w.traffic, alive.len(), p, at_q),
+                None => vec![("no-primary".into(), "no primary among the survivors".into())],
+            }
+        };
+        let on_state = |w: &NetWorld, _p: &[T]| judge_alive(w, false);
+        let on_q = |w: &NetWorld, _p: &[T]| judge_alive(w, true);
+        match explore_net(&mk, &on_state, &on_q, &cfg) {
+            Ok((st, findings)) => {
+                total.states += st.states;
+                total.transitions += st.transitions;
+                total.replays += st.replays;
+                total.quiescent_states += st.quiescent_states;
+                if st.cap.is_some() {
+                    capped += 1;
+                }
+                let name = format!("[3 nodes, {} db, after a fail-over (n1 died, n2 elected)] {}", strategy, sc.name());
+                let cmd = sc.ops[0].1.split(' ').next().unwrap_or("").to_string();
+                let origin = if sc.ops[0].0 == 1 { "primary" } else { "secondary" };
+                report_findings(run, "C14", &name, findings, &|f| format!("{} on the {} ({} db) after a fail-over: {}", cmd, origin, strategy, f.detail.split(';').next().unwrap_or("")));
+            }
+            Err(e) => {
+                eprintln!("machinery: NET exploration of {} (after a fail-over) failed: {}", sc.name(), e);
+                std::process::exit(2);
+            }
+        }
+    }
+    run.cov("scripts_on_a_cluster_after_a_failover", json!(failover.len()));
     for (nn, strategy, sc) in plan.iter() {
         if std::time::Instant::now() > deadline {
             skipped += 1;
@@ -182,7 +231,9 @@ pub fn run(run: &mut Run) {
             }
         }
     }
-    real_transport_stage(run, if quick { vec![2] } else { vec![2, 3] });
+    if !only_failover {
+        real_transport_stage(run, if quick { vec![2] } else { vec![2, 3] });
+    }
     run.cov("scripts", json!(plan.len()));
     run.cov("commands", json!(commands()));
     run.cov_add("states", total.states);
@@ -193,7 +244,9 @@ pub fn run(run: &mut Run) {
     run.cov("scripts_capped", json!(capped));
     run.cov("scripts_skipped_by_deadline", json!(skipped));
     run.cov("exhaustive", json!(capped == 0 && skipped == 0));
-    run.sample(json!({"script": plan[2].2.name(), "step_budget": 120}));
+    if plan.len() > 2 {
+        run.sample(json!({"script": plan[2].2.name(), "step_budget": 120}));
+    }
     run.assume("ok / error lines that answer every command on a connection are transport replies, not counted as messages");
     run.assume("cluster-internal commands (join, leave, election, set-primary, replicate*, ack, rp) and debug force-election are not client operations here (elections: C07)");
 }
